@@ -140,7 +140,9 @@ impl Compiler {
         let constraints = prover.constraints();
         let size = constraints.next_power_of_two();
 
-        let domain = EvaluationDomain::new(size - 1)?;
+        // `size` coefficients: `size - 1` rounds up to a domain of one row
+        // for a two-row circuit (reachable through compressed descriptions).
+        let domain = EvaluationDomain::new(size)?;
 
         // 1. pad circuit to a power of two
         //
